@@ -45,6 +45,8 @@ RULES = [
 # ------------------------------------------------------------------ schemas
 ANCHOR = """
 input AnchorIn2 { v: Int, w: [String] }
+input AnchorSpan { lo: Int!, hi: Int! }
+input AnchorRange { start: Int!, stop: Int!, unit: AnchorEnum!, step: Int = 1, note: String, span: AnchorSpan, spans: [AnchorSpan!] }
 input AnchorIn { a: Int, b: String = "x", r: Boolean!, nested: AnchorIn2, l: [Int!], nn: AnchorIn2! = {v: 1} }
 enum AnchorEnum { ONE TWO THREE }
 scalar AnchorScalar
@@ -52,7 +54,8 @@ type AnchorObj { id: ID!, name: String, count: Int, self: AnchorObj, others(firs
 directive @anchor(n: Int!, t: String) on FIELD | FRAGMENT_SPREAD | INLINE_FRAGMENT | QUERY | MUTATION | SUBSCRIPTION | FRAGMENT_DEFINITION
 """
 ANCHOR_FIELD = ("anchor(i: Int, req: Int!, nd: Int! = 7, inp: AnchorIn, inn: AnchorIn2!, lst: [Int], ll: [[Int]], lnn: [Int!]!, "
-                "e: AnchorEnum = ONE, sc: AnchorScalar, s: String, f: Float, b: Boolean, id: ID, li: [AnchorIn2!]): AnchorObj")
+                "e: AnchorEnum = ONE, sc: AnchorScalar, s: String, f: Float, b: Boolean, id: ID, li: [AnchorIn2!], "
+                "rg: AnchorRange, rgs: [AnchorRange!]): AnchorObj")
 
 _SCALARS = ["Int", "Float", "String", "Boolean", "ID"]
 
@@ -83,7 +86,9 @@ def gen_schema(rng):
     evals = rng.sample(["RED", "GREEN", "BLUE", "CYAN", "MAGENTA"], rng.randint(2, 4))
     lines.append("enum %s { %s }" % (enum, " ".join(evals)))
 
-    in_fields = {"AnchorIn": [("r", "Boolean!", None)], "AnchorIn2": []}
+    in_fields = {"AnchorIn": [("r", "Boolean!", None)], "AnchorIn2": [],
+                 "AnchorSpan": [("lo", "Int!", None), ("hi", "Int!", None)],
+                 "AnchorRange": [("start", "Int!", None), ("stop", "Int!", None), ("unit", "AnchorEnum!", None)]}
 
     def lit(t):
         # a literal for input type expression t
@@ -111,6 +116,10 @@ def gen_schema(rng):
     f2 = [("p", "Int", None), ("t", _wrap(rng, rng.choice(in_types)), None)]
     if rng.random() < 0.5:
         f2.append(("u", "String", '"u"'))
+    # 2-4 required fields (non-null, no default) among the optional ones, in a random declaration order
+    f2 += rng.sample([("ra", "Int!", None), ("rb", "String!", None), ("rc", enum + "!", None), ("rd", "Boolean!", None)],
+                     rng.randint(2, 4))
+    rng.shuffle(f2)
     in_fields[inp2] = f2
     f1 = [("q", "Int", None), ("n", _wrap(rng, inp2), None), ("x", _wrap(rng, rng.choice(in_types)), None)]
     if rng.random() < 0.6:
@@ -119,7 +128,7 @@ def gen_schema(rng):
     for nm in (inp2, inp):
         lines.append("input %s { %s }" % (nm, " ".join(
             "%s: %s%s" % (n, ft, (" = " + dflt) if dflt else "") for n, ft, dflt in in_fields[nm])))
-    in_all = in_types + [inp, inp2, "AnchorIn", "AnchorIn2"]
+    in_all = in_types + [inp, inp2, "AnchorIn", "AnchorIn2", "AnchorRange", "AnchorSpan"]
 
     def out_type():
         if rng.random() < 0.5:
@@ -946,6 +955,146 @@ def conflict_placement_forms(rng):
 
 
 # --------------------------------------------------- labelled violators
+def related_value(rng, v):
+    """a literal related to v the way two occurrences of one argument may be related: equal,
+    input-object fields permuted / a strict subset / a superset / emptied, the same inside lists
+    and objects, another spelling of a number, enum name as a string, a variable"""
+    v = copy.deepcopy(v)
+    k = v[0]
+    c = rng.randint(0, 7)
+    if k == "obj":
+        fs = v[1]
+        if c == 0 and len(fs) > 1:
+            rng.shuffle(fs)
+        elif c == 1 and fs:
+            fs.pop(rng.randrange(len(fs)))
+        elif c == 2:
+            fs.insert(rng.randint(0, len(fs)), [rng.choice(["v", "w", "a", "note", "step", "zz"]),
+                                                rng.choice([["int", "1"], ["str", "x"], ["list", []], ["null"]])])
+        elif c == 3:
+            v[1] = []
+        elif c in (4, 5) and fs:
+            f = rng.choice(fs)
+            f[1] = related_value(rng, f[1])
+        return v
+    if k == "list":
+        if v[1] and c < 5:
+            i = rng.randrange(len(v[1]))
+            v[1][i] = related_value(rng, v[1][i])
+        elif c == 5:
+            v[1].append(["int", "1"])
+        elif c == 6 and v[1]:
+            v[1].pop()
+        return v
+    if k == "int" and c < 3:
+        return ["float", v[1] + ".0"]
+    if k == "enum" and c < 3:
+        return ["str", v[1]]
+    if k == "str" and c < 2:
+        return ["enum", "ONE"]
+    if c == 3:
+        return ["var", "v0"]
+    return v
+
+
+def object_argument_forms(rng):
+    """(name, [definitions]) -- one response key selected twice with argument literals that are
+    related: equal, input-object fields permuted, a strict subset / superset (both orders),
+    empty against non-empty, the same nested in objects and in lists, a variable against a
+    literal, two spellings of a number, an enum name against a string, other values, disjoint
+    names; directly in one selection set and through an inline fragment"""
+    out = []
+    o = lambda *fs: ["obj", [list(f) for f in fs]]
+    i = lambda n: ["int", str(n)]
+    T = ["bool", True]
+    pairs = [
+        ("equal", "inp", o(("r", T), ("a", i(1))), o(("r", T), ("a", i(1)))),
+        ("permuted", "inp", o(("r", T), ("a", i(1))), o(("a", i(1)), ("r", T))),
+        ("subset", "inp", o(("r", T)), o(("r", T), ("a", i(1)))),
+        ("subset-first-field", "inp", o(("a", i(1))), o(("a", i(1)), ("r", T))),
+        ("empty", "inn", o(), o(("v", i(2)))),
+        ("subset-list-field", "inn", o(("v", i(1))), o(("v", i(1)), ("w", ["list", [["str", "a"]]]))),
+        ("nested-object", "inp", o(("r", T), ("nested", o(("v", i(1))))),
+         o(("r", T), ("nested", o(("v", i(1)), ("w", ["list", [["str", "x"]]]))))),
+        ("nested-empty", "inp", o(("r", T), ("nested", o())), o(("r", T), ("nested", o(("v", i(1)))))),
+        ("in-list", "li", ["list", [o(("v", i(1)))]], ["list", [o(("v", i(1)), ("w", ["list", []]))]]),
+        ("in-list-empty", "li", ["list", [o()]], ["list", [o(("v", i(3)))]]),
+        ("in-list-second", "li", ["list", [o(("v", i(1))), o(("v", i(2)))]],
+         ["list", [o(("v", i(1))), o(("v", i(2)), ("w", ["null"]))]]),
+        ("required-fields", "rg", o(("start", i(1)), ("stop", i(2)), ("unit", ["enum", "ONE"])),
+         o(("start", i(1)), ("stop", i(2)), ("unit", ["enum", "ONE"]), ("step", i(2)))),
+        ("deep", "rg", o(("start", i(1)), ("stop", i(2)), ("unit", ["enum", "ONE"]), ("spans", ["list", [o(("lo", i(1)), ("hi", i(2)))]])),
+         o(("start", i(1)), ("stop", i(2)), ("unit", ["enum", "ONE"]), ("spans", ["list", [o(("lo", i(1)), ("hi", i(2)), ("zz", i(0)))]]))),
+        ("variable", "inp", o(("r", T), ("a", ["var", "zv"])), o(("r", T), ("a", i(1)))),
+        ("variable-object", "inn", ["var", "zo"], o(("v", i(1)))),
+        ("number-spelling", "f", i(1), ["float", "1.0"]),
+        ("enum-string", "sc", ["enum", "ONE"], ["str", "ONE"]),
+        ("other-value", "inn", o(("v", i(1))), o(("v", i(2)))),
+        ("disjoint", "inn", o(("v", i(1))), o(("w", ["list", [["str", "a"]]]))),
+        ("list-prefix", "ll", ["list", [["list", [i(1)]]]], ["list", [["list", [i(1)]], ["list", [i(2)]]]]),
+    ]
+    zvars = [{"name": "zv", "type": "Int", "default": None}, {"name": "zo", "type": "AnchorIn2!", "default": None}]
+
+    def anc(val, arg):
+        a = _anchor_field(rng, None)
+        a["alias"] = "zo"
+        a["args"] = [x for x in a["args"] if x[0] != arg] + [[arg, copy.deepcopy(val)]]
+        return a
+
+    for name, arg, v1, v2 in pairs:
+        for order in (0, 1):
+            a, b = (v1, v2) if order == 0 else (v2, v1)
+            used = [z for z in zvars if ("$" + z["name"]) in r_val(a) + r_val(b)]
+            for place in ("direct", "inline"):
+                second = anc(b, arg)
+                if place == "inline":
+                    second = {"k": "inline", "on": "Query", "dirs": [], "sels": [second]}
+                out.append(("%s-%d-%s" % (name, order, place),
+                            [{"kind": "op", "op": "query", "name": "ZO", "vars": copy.deepcopy(used), "dirs": [],
+                              "sels": [anc(a, arg), second]}]))
+    return out
+
+
+def required_order_forms(rng):
+    """(name, [definitions]) -- valid documents writing the required fields of an input object
+    in every order (with optional fields in between): as an argument value, as a list item, in
+    a nested field, in a nested list, as a variable default"""
+    import itertools
+    out = []
+    i = lambda n: ["int", str(n)]
+    req = [["start", i(1)], ["stop", i(10)], ["unit", ["enum", "TWO"]]]
+
+    def anc(extra):
+        a = _anchor_field(rng, None)
+        a["alias"] = "zr"
+        a["args"] = a["args"] + extra
+        return a
+
+    def q(extra, vars_=None):
+        return [{"kind": "op", "op": "query", "name": "ZR", "vars": vars_ or [], "dirs": [], "sels": [anc(extra)]}]
+
+    for n, perm in enumerate(itertools.permutations(req)):
+        fs = [copy.deepcopy(list(x)) for x in perm]
+        tag = "".join(x[0][2] for x in fs)
+        with_opt = copy.deepcopy(fs)
+        with_opt.insert(n % 4, ["note", ["str", "n"]])
+        with_opt.insert((n + 2) % 5, ["step", i(2)])
+        out.append(("argument-" + tag, q([["rg", ["obj", fs]]])))
+        out.append(("argument-optional-" + tag, q([["rg", ["obj", with_opt]]])))
+        out.append(("item-" + tag, q([["rgs", ["list", [["obj", copy.deepcopy(req)], ["obj", copy.deepcopy(fs)]]]]])))
+        out.append(("bare-item-" + tag, q([["rgs", ["obj", copy.deepcopy(fs)]]])))
+        out.append(("default-" + tag, q([["rg", ["var", "zr"]]],
+                                        [{"name": "zr", "type": "AnchorRange", "default": ["obj", copy.deepcopy(fs)]}])))
+        out.append(("list-default-" + tag, q([["rgs", ["var", "zl"]]],
+                                             [{"name": "zl", "type": "[AnchorRange!]", "default": ["list", [["obj", copy.deepcopy(fs)]]]}])))
+    for n, sp in enumerate(([["lo", i(1)], ["hi", i(2)]], [["hi", i(2)], ["lo", i(1)]])):
+        base = copy.deepcopy(req)
+        out.append(("nested-%d" % n, q([["rg", ["obj", base + [["span", ["obj", copy.deepcopy(sp)]]]]]])))
+        out.append(("nested-list-%d" % n, q([["rg", ["obj", [["spans", ["list", [["obj", copy.deepcopy(sp)], ["obj", copy.deepcopy(sp)]]]]] + copy.deepcopy(req)]]])))
+        out.append(("nested-in-item-%d" % n, q([["rgs", ["list", [["obj", [["span", ["obj", copy.deepcopy(sp)]]] + list(reversed(copy.deepcopy(req)))]]]]])))
+    return out
+
+
 def violate(rng, schema, doc, label):
     """returns a copy of doc breaking rule `label` (1-based index into RULES)
     at one place, or None when not applicable"""
@@ -1393,7 +1542,7 @@ def special_mutants(rng):
 def mutate(rng, doc):
     """one random structural mutation (the result is usually invalid)"""
     d = copy.deepcopy(doc)
-    c = rng.randint(0, 11)
+    c = rng.randint(0, 13)
     sets = all_selsets(d)
     sels, holder = rng.choice(sets)
     fields = all_nodes(d, "field")
@@ -1446,6 +1595,21 @@ def mutate(rng, doc):
     elif c == 11:
         o = rng.choice(ops_of(d))
         o["op"] = rng.choice(["query", "mutation", "subscription"])
+    elif c >= 12:
+        # the same response key again with a related argument value (before or after the original)
+        cands = [(s, x) for s, _ in sets for x in s if x["k"] == "field" and x["args"]]
+        withobj = [(s, x) for s, x in cands if any(v[0] in ("obj", "list") for _n, v in x["args"])]
+        if withobj and rng.random() < 0.8:
+            cands = withobj
+        if cands:
+            s, x = rng.choice(cands)
+            dup = copy.deepcopy(x)
+            dup["dirs"] = []
+            structured = [a for a in dup["args"] if a[1][0] in ("obj", "list")]
+            a = rng.choice(structured or dup["args"])
+            a[1] = related_value(rng, a[1])
+            at = s.index(x)
+            s.insert(at + rng.randint(0, 1), dup)
     return d
 
 
@@ -1469,6 +1633,48 @@ def permute_arguments(rng, doc):
         rng.shuffle(h["args"])
     for o in ops_of(d):
         pass
+    return d
+
+
+def _obj_literals(v, acc):
+    if v[0] == "list":
+        for x in v[1]:
+            _obj_literals(x, acc)
+    elif v[0] == "obj":
+        acc.append(v)
+        for _n, x in v[1]:
+            _obj_literals(x, acc)
+
+
+def value_slots(doc):
+    """every literal written in the document: argument values and variable defaults"""
+    out = []
+    for h in arg_holders(doc):
+        out.extend(v for _n, v in h["args"])
+    for o in ops_of(doc):
+        out.extend(v["default"] for v in o["vars"] if v["default"] is not None)
+    return out
+
+
+def permute_input_fields(rng, doc):
+    """the fields of every input object literal (arguments, list items, nested fields, variable
+    defaults) reordered by one random ranking of the field names, so that equal literals stay
+    equal; None when two literals carry the same field names in different orders (they would
+    become equal)"""
+    d = copy.deepcopy(doc)
+    objs = []
+    for v in value_slots(d):
+        _obj_literals(v, objs)
+    seen = {}
+    for ob in objs:
+        names = [n for n, _ in ob[1]]
+        if seen.setdefault(tuple(sorted(names)), names) != names:
+            return None
+    names = sorted({n for ob in objs for n, _ in ob[1]})
+    rng.shuffle(names)
+    rank = {n: i for i, n in enumerate(names)}
+    for ob in objs:
+        ob[1].sort(key=lambda f: rank[f[0]])
     return d
 
 
